@@ -1,9 +1,7 @@
 package main
 
 func init() {
-	for _, id := range []string{"C20"} {
-		notApplicable[id] = "not yet claimed: contracts for this property are still being written (see DESIGN.md); no check is registered"
-	}
+	notApplicable["C20"] = "the simulator builds its header by string templating (fmt.Sprintf %012s, strings.Replace, hex.DecodeString - library functions without models) and takes bodies from a table of Handler interface values; 'every generated frame is accepted by the decoder with that ID, phone and serial' is Decode(Encode(h, body)) = (h, body), the composition C01 leaves undecided (two counting functions, induction over both arrays). What remains within reach - CreateCommandData sets the reply ID, increments the serial by one and calls Header.Encode, whose layout contract is discharged under C01 - is one line and carries none of the statement; no check is registered"
 	notApplicable["C12"] = "command/response matching lives in goroutine, channel and timer interplay (onActiveEvent/onActiveRespondEvent/write); no sequential function contract within the verifier's subset carries the claim"
 	notApplicable["C13"] = "a statement about channel closure and blocked callers under all schedules; contracts over sequential semantics cannot state it"
 	notApplicable["C18"] = "data-race freedom is a property of schedules; the deductive verifier models one goroutine's sequential semantics only"
